@@ -119,6 +119,14 @@ mod unix_impl {
 
         /// Send data to the connected peer asynchronously.
         pub async fn send(&self, buf: &[u8]) -> std::io::Result<usize> {
+            #[cfg(feature = "verif-hooks")]
+            if let Some(r) = crate::net::verif_hooks::intercept_uplink(
+                self.as_raw_fd(),
+                crate::net::verif_hooks::UplinkCall::Send,
+                &[buf],
+            ) {
+                return r;
+            }
             loop {
                 let mut guard = self.inner.ready(Interest::WRITABLE).await?;
 
@@ -150,6 +158,14 @@ mod unix_impl {
         pub async fn send_batch(&self, bufs: &[&[u8]]) -> std::io::Result<usize> {
             if bufs.is_empty() {
                 return Ok(0);
+            }
+            #[cfg(feature = "verif-hooks")]
+            if let Some(r) = crate::net::verif_hooks::intercept_uplink(
+                self.as_raw_fd(),
+                crate::net::verif_hooks::UplinkCall::SendBatch,
+                bufs,
+            ) {
+                return r;
             }
             loop {
                 let mut guard = self.inner.ready(Interest::WRITABLE).await?;
